@@ -500,7 +500,7 @@ func wsrtComps(thorough bool) []int {
 }
 
 func wsrtEnumSingle(e *vsched.Enum, thorough bool) {
-	bufs := []int{16, 256, 4096, 65536}
+	bufs := []int{16, 31, 256, 4096, 65536} // 31: fragment lengths that are not a multiple of the 4-byte mask key
 	var n int64
 	for _, server := range []bool{true, false} {
 		for _, buf := range bufs {
@@ -567,7 +567,7 @@ func wsrtEnumSingle(e *vsched.Enum, thorough bool) {
 
 func wsrtEnumSeq(e *vsched.Enum, thorough bool) {
 	var n int64
-	bufs := []int{16, 256}
+	bufs := []int{16, 31, 256}
 	comps := []int{wsrtCompOff, 1}
 	if thorough {
 		comps = []int{wsrtCompOff, wsrtCompDisabled, -2, 1, 9}
